@@ -55,12 +55,12 @@ Proof.
       destruct d as [did dop]. cbn [ds_open ds_sysid] in E.
       destruct dop as [p|u].
       * destruct (fs p); inversion E; subst; cbn [rev app rf_ok]; rewrite R; repeat split; auto; exists b; split; auto.
-      * inversion E; subst; cbn [rev app rf_ok]; rewrite R; repeat split; auto; exists b; split; auto.
+      * destruct (fs u); inversion E; subst; cbn [rev app rf_ok]; rewrite R; repeat split; auto; exists b; split; auto.
   - destruct (c_disableDefault c); [inversion E; subst; exact Hs|].
     destruct (default_source (c_stdUri c) b sys) as [d|]; [|inversion E; subst; exact Hs].
     destruct (ds_open d) as [p|u].
     + destruct (fs p); inversion E; subst; cbn [rev app rf_ok]; rewrite R; split; auto.
-    + inversion E; subst; cbn [rev app rf_ok]; rewrite R; split; auto.
+    + destruct (fs u); inversion E; subst; cbn [rev app rf_ok]; rewrite R; split; auto.
 Qed.
 
 Lemma RInv_ss1 : forall base loc ns ev src s, schema_source c rs base loc ns = (ev, src) -> RInv s -> RInv (emit ev s).
